@@ -118,6 +118,18 @@ def family():
             return join(recs)
         return f
 
+    def short_sig_of(i, n, alter_data=False):
+        """the signature field of chunk i cut to its first n digits (a parser that takes any run of hex digits together with a comparison
+        that stops at the shorter string accepts it); optionally with the chunk's data altered"""
+        def f(recs, enc):
+            h = recs[i][0]
+            k = h.index(b"chunk-signature=") + len(b"chunk-signature=")
+            recs[i][0] = h[:k] + h[k:k + n] + h[k + 64:]
+            if alter_data and recs[i][1]:
+                recs[i][1] = bytes([recs[i][1][0] ^ 1]) + recs[i][1][1:]
+            return join(recs)
+        return f
+
     def f_final_from_other(recs, enc):
         other = enc("f" * 64)
         recs[-1] = other[-1]
@@ -130,6 +142,10 @@ def family():
                     ("chunk:signature-two-digits-same-mask", "two signature digits of the second chunk altered by the same bit mask", xor_pair_sig_of(1)),
                     ("chunk:first-signature-two-digits-same-mask", "two signature digits of the first chunk altered by the same bit mask", xor_pair_sig_of(0)),
                     ("chunk:final-signature-two-digits-same-mask", "two signature digits of the final chunk altered by the same bit mask", xor_pair_sig_of(-1)),
+                    ("chunk:signature-cut-to-63", "signature field of the second chunk cut to 63 digits", short_sig_of(1, 63)),
+                    ("chunk:signature-cut-to-8", "signature field of the second chunk cut to 8 digits", short_sig_of(1, 8)),
+                    ("chunk:signature-cut-to-1", "signature field of the first chunk cut to 1 digit", short_sig_of(0, 1)),
+                    ("chunk:final-signature-cut-to-1", "signature field of the final chunk cut to 1 digit", short_sig_of(-1, 1)),
                     ("chunk:resized", "second chunk resized", f_size),
                     ("chunk:swapped", "first two chunks swapped", f_swap),
                     ("chunk:duplicated", "first chunk duplicated", f_dup),
